@@ -420,9 +420,11 @@ def main():
         print('UNDECIDED %s: %s' % (u['name'], str(u.get('detail'))[:160]))
     for l in known_lines:
         print(l)
-    if checker_error:
+    if checker_error and not violations:
         print('CHECKER-ERROR %s' % checker_error)
         return 3
+    if checker_error:
+        print('CHECKER-WARNING %s (violations of the other tier are still reported)' % checker_error)
     if crashed:
         print('CHECKER-WARNING generator crashed on: %s (reported undecided)' % ', '.join(o['task'] for o in crashed))
     if violations:
